@@ -210,10 +210,16 @@ func runC20(c *Ctx) {
 	// larger dimensions (multi-digit row counts and column alignment): a few structured weight functions
 	for _, n := range []int{9, 10, 11, 12, 37, 100, 101, 128, 129, 130, 257} {
 		L := n * (n - 1) / 2
-		for variant := 0; variant < 4; variant++ {
+		for variant := 0; variant < 7; variant++ {
 			w := make([]int, L)
 			for i := range w {
 				switch variant {
+				case 4: // many distinct long values that recur (a formatting cache must not serve stale text)
+					w[i] = math.MinInt64 + i%197
+				case 5:
+					w[i] = 1000 + i%821
+				case 6:
+					w[i] = (i%4099)*1000003 - 17
 				case 0:
 					w[i] = i
 				case 1:
@@ -330,6 +336,9 @@ func replayC20(kind string, raw json.RawMessage) *Failure {
 			}
 		}
 		return nil
+	}
+	if kind != "tsp" {
+		return unsupportedKind(kind)
 	}
 	var tc tspCase
 	if err := json.Unmarshal(raw, &tc); err != nil {
